@@ -88,6 +88,10 @@ def opt_tokens(o):
         return pre + K("CHECK") + paren(I(o["col"]) + T(o["op"]) + N(o["val"]))
     if k == "comment":
         return K("COMMENT") + L(o["text"])
+    if k == "autoinc":
+        return K(o["word"])          # AUTO_INCREMENT / AUTOINCREMENT: dedicated lexer rules, matched in any letter case
+    if k == "collate":
+        return K("COLLATE") + T(o["name"])
     raise ValueError(k)
 
 
@@ -320,6 +324,10 @@ def gen_opt(rng, kind, colname):
         return {"k": "check", "col": colname, "op": rng.choice([">", "<", ">=", "<>"]), "val": rng.randint(0, 99)}
     if kind == "comment":
         return {"k": "comment", "text": rng.choice(["'c'", "'a comment'", "'Col: x'"])}
+    if kind == "autoinc":
+        return {"k": "autoinc", "word": rng.choice(["AUTO_INCREMENT", "AUTOINCREMENT"])}
+    if kind == "collate":
+        return {"k": "collate", "name": rng.choice(["utf8_bin", "Latin1_General_CI_AS", '"C"'])}
     raise ValueError(kind)
 
 
